@@ -13,6 +13,8 @@ import (
 
 	"verif/props/core"
 	"verif/props/proto"
+	"verif/refcodec"
+	"verif/simnet"
 	"verif/vsched"
 )
 
@@ -72,6 +74,16 @@ func sets() []set {
 			b2.Hops = map[int]proto.HopSpec{2: {Form: "rst"}, 3: {Form: "rst"}, 4: {Form: "rst"}}
 			out = append(out, set{v + "+" + v + "/same-target/filters-off/closed-port", []proto.Scn{a2, b2}})
 		}
+	}
+	// runs with different first TTLs (as the end-to-end probes of a request have), the one with the larger first TTL allocating first
+	{
+		a, b := scn("syn", 0, "", 3), scn("syn", 1, "", 3)
+		a.First, a.Last = 4, 4
+		out = append(out, set{"syn(4..4)+syn(1..4)/same-target", []proto.Scn{a, b}})
+		a2, b2, c2 := scn("syn", 0, "", 3), scn("syn", 1, "", 3), scn("syn", 2, "", 3)
+		a2.First, a2.Last = 3, 4
+		b2.First, b2.Last = 2, 4
+		out = append(out, set{"syn(3..4)+syn(2..4)+syn(1..4)/same-target", []proto.Scn{a2, b2, c2}})
 	}
 	// protocol mixes
 	out = append(out, set{"icmp4+udp4+syn/same-target", []proto.Scn{scn("icmp4", 0, "", 3), scn("udp4", 1, "", 2), scn("syn", 2, "", 4)}})
@@ -141,6 +153,9 @@ func check(it *proto.Item, r *proto.Result) []proto.Issue {
 			out = append(out, proto.Issue{Key: "run-differs-from-solo", Detail: fmt.Sprintf("run %d (%s, flow %d): concurrent: %s ; alone: %s", i, sc.Variant, sc.Flow, got, want)})
 		}
 	}
+	if is := ipidOverlap(r.Net); is != nil {
+		out = append(out, *is)
+	}
 	return out
 }
 
@@ -170,6 +185,9 @@ func checkRT(it *proto.RTItem, r *proto.RTResult) []proto.Issue {
 		return []proto.Issue{{Key: "run-error", Detail: r.Err.Error()}}
 	}
 	var out []proto.Issue
+	if is := ipidOverlap(r.Net); is != nil {
+		out = append(out, *is)
+	}
 	if len(r.Res.Traceroute.Runs) != it.Scn.Queries {
 		return []proto.Issue{{Key: "run-count", Detail: r.Summary()}}
 	}
@@ -203,6 +221,22 @@ func checkRT(it *proto.RTItem, r *proto.RTResult) []proto.Issue {
 		}
 	}
 	return out
+}
+
+// ipidOverlap: the IP-IDs concurrent TCP SYN runs in default mode put on the wire come from the process-wide allocator's
+// blocks and must be pairwise disjoint between runs.
+func ipidOverlap(n *simnet.Net) *proto.Issue {
+	owner := map[uint16]int{}
+	for _, e := range n.Ledger {
+		if e.Dir != "tx" || e.P == nil || e.P.Proto != refcodec.ProtoTCP || e.P.Flags&refcodec.SYN == 0 || e.P.IPID == 41821 {
+			continue
+		}
+		if o, ok := owner[e.P.IPID]; ok && o != e.Sink {
+			return &proto.Issue{Key: "ip-id-blocks-overlap", Detail: fmt.Sprintf("IP-ID %d was used by run %d (ttl %d) and by run %d", e.P.IPID, e.Sink, e.P.TTL, o)}
+		}
+		owner[e.P.IPID] = e.Sink
+	}
+	return nil
 }
 
 func flowOf(a netip.Addr) int {
